@@ -163,6 +163,8 @@ pub fn block(name: &str, c: &AlphaCtx, out: &mut Vec<Op>) {
             out.push(Op::new(OpK::ExtendOverlap, k0, 4));
             out.push(Op::new(OpK::ExtendOverlap, c.next_key.saturating_sub(2), 5));
             out.push(Op::new(OpK::ExtendRef, k0, 3));
+            out.push(Op::new(OpK::ExtendRef, k0, 4 | 1 << 8));
+            out.push(Op::new(OpK::ExtendRef, c.next_key.saturating_sub(1), 6 | 2 << 8));
             out.push(Op::k(OpK::FromIter));
             out.push(Op::k(OpK::Clear));
         }
@@ -380,7 +382,10 @@ pub fn block(name: &str, c: &AlphaCtx, out: &mut Vec<Op>) {
                 out.push(Op::arg(OpK::ExtendFresh, 3));
                 out.push(Op::arg(OpK::ExtendFresh, 20));
                 out.push(Op::new(OpK::ExtendOverlap, c.classes.old_next.or(c.classes.main_a).unwrap_or(0), 4));
+                out.push(Op::new(OpK::ExtendOverlap, c.next_key.saturating_sub(2), 5));
                 out.push(Op::new(OpK::ExtendRef, c.next_key.saturating_sub(2), 5));
+                out.push(Op::new(OpK::ExtendRef, c.next_key.saturating_sub(2), 5 | 1 << 8));
+                out.push(Op::new(OpK::ExtendRef, c.classes.old_next.or(c.classes.main_a).unwrap_or(0), 6 | 2 << 8));
             }
         }
         "siter" => {
